@@ -263,6 +263,9 @@ func body(c Case, w *world) func() {
 				return
 			}
 			wg := make(chan int, 2)
+			if c.N == 1 {
+				use(a, w, "a", ida)
+			}
 			vrt.GoNamed("closer", func() {
 				a.Close()
 				// a late packet for the closed channel arrives afterwards
@@ -288,8 +291,10 @@ func body(c Case, w *world) func() {
 		case "S4-unknown-channel-packet":
 			vrt.GoNamed("peer", func() {
 				peer(pipe, func(channel int, pipe *vrt.Pipe) {
-					// between the two reply packets: a packet for a channel that never existed
-					pipe.PeerSend(hdr(4, hx.EOM, 77, tdspkg.ReturnStatus{Value: 777}.Encode()))
+					// between the two reply packets: packet(s) for a channel that never existed
+					for i := 0; i < 1+c.N; i++ {
+						pipe.PeerSend(hdr(4, hx.EOM, 77, tdspkg.ReturnStatus{Value: int32(777 + i)}.Encode()))
+					}
 				})
 			})
 			b, idb := newCh("b")
@@ -304,7 +309,7 @@ func body(c Case, w *world) func() {
 			}
 			var got []string
 			connErrs := 0
-			for len(got) < 3 && connErrs < 3 {
+			for len(got) < 3 && connErrs < 5 {
 				p, err := b.NextPackage(ctx, true)
 				if err != nil {
 					if strings.Contains(err.Error(), "invalid channel 77") {
@@ -322,7 +327,7 @@ func body(c Case, w *world) func() {
 				}
 			}
 			vrt.Settle()
-			for i := 0; i < 3; i++ {
+			for i := 0; i < 5; i++ {
 				sctx, scancel := vrt.WithTimeout(context.Background(), time.Second)
 				_, err := b.NextPackage(sctx, true)
 				scancel()
@@ -336,8 +341,8 @@ func body(c Case, w *world) func() {
 			if strings.Join(got, "|") != strings.Join(want, "|") {
 				w.bad("C12|unknown-channel-packet-disturbs", fmt.Sprintf("channel %d received %v, its script is %v", idb, got, want))
 			}
-			if connErrs != 1 {
-				w.bad("C12|unknown-channel-not-reported-once", fmt.Sprintf("the packet for channel 77 produced %d connection errors", connErrs))
+			if connErrs != 1+c.N {
+				w.bad("C12|unknown-channel-not-reported-once", fmt.Sprintf("%d packet(s) for channel 77 produced %d connection errors", 1+c.N, connErrs))
 			}
 		}
 	}
@@ -455,13 +460,14 @@ func main() {
 	if h.Thorough {
 		bound = 3
 	}
-	cases := []Case{{Scenario: "S1-concurrent-newchannel", N: 2}, {Scenario: "S1-concurrent-newchannel", N: 3}, {Scenario: "S2-two-channels"}, {Scenario: "S3-close-while-other-in-use"}, {Scenario: "S4-unknown-channel-packet"}}
+	cases := []Case{{Scenario: "S1-concurrent-newchannel", N: 2}, {Scenario: "S1-concurrent-newchannel", N: 3}, {Scenario: "S2-two-channels"}, {Scenario: "S3-close-while-other-in-use"},
+		{Scenario: "S3-close-while-other-in-use", N: 1}, {Scenario: "S4-unknown-channel-packet"}, {Scenario: "S4-unknown-channel-packet", N: 1}}
 	for _, c := range cases {
 		if h.Expired("scenario list cut short") {
 			break
 		}
 		c.Bound = bound
-		if c.N == 3 && !h.Thorough {
+		if c.Scenario == "S1-concurrent-newchannel" && c.N == 3 && !h.Thorough {
 			c.Bound = 1
 		}
 		explore(c)
